@@ -385,6 +385,7 @@ func runHostileConns(c HostileConnCase) (*hcStats, error) {
 	// probe: a well-behaved library client must be served while and after the hostile peers act
 	runProbe := func(proto gortsplib.Protocol, rtpPort int, when string) error {
 		probes++
+		stall.take()
 		cl := NewClient(w.Scheme, w.Host, protoPtr(proto))
 		got := make(chan struct{}, 1)
 		var perr error
@@ -431,6 +432,12 @@ func runHostileConns(c HostileConnCase) (*hcStats, error) {
 		}
 		defer cl.Close()
 		if perr != nil {
+			if stall.take() > 500*time.Millisecond {
+				// the process did not get the CPU for half a second or more while the probe ran: the server's own
+				// read timeout may have expired on the probe's connection
+				st.Inconcl++
+				return nil
+			}
 			st.ProbeFails++
 			return fmt.Errorf("the well-behaved client (%s, %v) was not served: %v", when, proto, perr)
 		}
